@@ -22,6 +22,8 @@ import Midgard.Proofs.Rinex2ObsEpochFx
 import Midgard.Proofs.Rinex2ObsBlocks
 import Midgard.Proofs.Rinex2ObsFile
 import Midgard.Proofs.Rinex2ObsText
+import Midgard.Proofs.Rinex2ObsHeader
+import Midgard.Proofs.Rinex2ObsPost
 
 namespace Midgard.Props.C11
 open Midgard.Text Midgard.FixedCol Midgard.ChainParser Midgard.RinexObs Midgard.Decimal
@@ -465,7 +467,8 @@ value, LLI, SSI printed in the satellite's record for the types of its system (b
 the types the system does not have — and epoch string, flag, receiver clock offset, station, system, satellite,
 satellite number per row; all columns of equal length.
 The header part is proved at value level (`Proofs/Rinex3ObsMeta|Handlers|Header.lean`): every handler of the plain
-record kinds writes only `meta` keys the data section does not read, `MARKER NAME` sets the station, and a
+record kinds (`SYS / PHASE SHIFT` with its continuation lines and the GLONASS slot / bias records included) writes only `meta`
+keys the data section does not read, `MARKER NAME` sets the station, and a
 `SYS / # / OBS TYPES` record with its continuation lines declares its types in order for its system. -/
 theorem file_roundtrip3 (rate : Option Rat) (F : File) (hwf : F.wf = true) :
     readData headerParser obsParser resetCache (fileLines F) true 0 { rate := rate } = expected rate F :=
@@ -556,8 +559,8 @@ end File3
 `Spec/Rinex2ObsFile.lean` gives the abstract RINEX 2 file (header records incl. `# / TYPES OF OBSERV` continuation,
 epochs with flag, satellite-list continuation lines beyond 12 satellites, five observations per line, all-blank
 lines), its writer, `wf` and `expected`.  The statement `wf F → readData … (fileLines F) = expected rate F` is
-proved up to the evaluated header hypothesis `hdrOk2` (`file_roundtrip2_partial` below, with its parts); the driver evaluates this instance on every generated file (`c11 file2`), the rendered text is
-compared byte for byte with the independent writer and `expected` with the real parser.  One instance, evaluated by
+proved (`file_roundtrip2` below, with its parts); the driver evaluates this instance on every generated file (`c11 file2`), the
+rendered text is compared byte for byte with the independent writer and `expected` with the real parser.  One instance, evaluated by
 the kernel (seven types = two lines per satellite, the second line of the first satellite all blank): -/
 
 section File2
@@ -683,14 +686,39 @@ starts a group (end marker "digit in column 3, blank in column 4"), satellite-li
 five observations per line are collected until `num_obstypes` are there (all-blank lines through `_parse_observation_epoch`),
 and the data are one column per observation type with one entry per (epoch on the sampling grid, satellite) in file order,
 four-digit years, satellites named with system `G` and tens digit `0` where blank.
-Partial: what the data section needs from the header state (`num_obstypes`, the type list, marker name, `TIME OF FIRST OBS`
-with a readable century, empty columns: `hdrOk2`) is a hypothesis *evaluated* on the header's values; the full statement is the
-same without `hh` (value-level reasoning on the RINEX 2 header handlers, as done for RINEX 3 in `Proofs/Rinex3ObsHeader.lean`). -/
-theorem file_roundtrip2_partial (rate : Option Rat) (F : Midgard.Spec.Rinex2ObsFile.File) (hwf : F.wf = true)
-    (hh : hdrOk2 rate F = true) :
+The header part is proved at value level (`Proofs/Rinex2ObsHandlers|Types|Header.lean`): every handler of the fifteen plain
+record kinds writes only `meta` keys the data section does not read, `MARKER NAME` sets the station, the first
+`# / TYPES OF OBSERV` record sets `num_obstypes` and starts the type list, its continuation records append to it, and
+`TIME OF FIRST OBS` with a year ≥ 10 stores a time string that starts with two digits, so that the century in front of every
+epoch's two printed digits is a readable year. -/
+theorem file_roundtrip2 (rate : Option Rat) (F : Midgard.Spec.Rinex2ObsFile.File) (hwf : F.wf = true) :
     readData headerParser obsParser resetCache (Midgard.Spec.Rinex2ObsFile.fileLines F) true 0 { rate := rate } =
       Midgard.Spec.Rinex2ObsFile.expected rate F :=
-  file2_of_hdrOk rate F hwf hh
+  file2 rate F hwf
+
+/-- what the data section finds in the header state of a well-formed RINEX 2 file: `num_obstypes` = the number of types, the
+type list in file order, a marker name, a `TIME OF FIRST OBS` string whose first two characters in front of every epoch's
+two-digit year read as an integer, the sampling rate, and empty columns (one per type) -/
+theorem header_state2 (rate : Option Rat) (F : Midgard.Spec.Rinex2ObsFile.File) (hwf : F.wf = true) (H : State)
+    (hH : Midgard.Spec.Rinex2ObsFile.headerState rate F.hdr = .ok H) :
+    ∃ m t, H.metaD.get [key "num_obstypes"] = some (.int ((types F.hdr).length : Int)) ∧
+      H.metaD.get [key "obstypes"] = some (.list (types F.hdr)) ∧
+      H.metaD.get [key "marker_name"] = some (.text m) ∧ H.metaD.get [key "time_first_obs"] = some (.text t) ∧
+      H.rate = rate ∧ (∀ e ∈ F.epochs, ∃ y, pyInt (t.take 2 ++ zfill 2 e.yy.text) = .ok y) ∧
+      H.data = dataOf2 (types F.hdr) (lower m) [] H.data := by
+  obtain ⟨m, t, f⟩ := facts2_of_wf rate F hwf H hH
+  exact ⟨m, t, f.hf.hnum, f.hf.htyp, f.hf.hmark, f.hf.hfirst, f.hrate, f.hyears, f.hdata⟩
+
+/-- the header test `hdrOk2` (the hypothesis of the earlier partial theorem, still evaluated by the driver on every generated
+file) holds for every well-formed file -/
+theorem hdr_ok2 (rate : Option Rat) (F : Midgard.Spec.Rinex2ObsFile.File) (hwf : F.wf = true) : hdrOk2 rate F = true :=
+  hdrOk2_of_wf rate F hwf
+
+/-- **RINEX 2: the plain header records** (all kinds but `MARKER NAME`, `TIME OF FIRST OBS`, `# / TYPES OF OBSERV`) leave the
+`meta` keys the data section reads, the sampling rate and the columns as they are -/
+theorem plain_header_record2 (k : String) (hk : plainKinds2.any (·.1 == k) = true) (cells : List Str) (s s' : State)
+    (h : handle (handlerOf k) (valuesOf k cells) s = .ok s') : Frame2 s s' :=
+  plain_frame2 k hk cells s s' h
 
 /-- the text of a rendered well-formed RINEX 2 file splits into the rendered lines -/
 theorem lines_of_render2 (F : Midgard.Spec.Rinex2ObsFile.File) (hwf : F.wf = true) :
@@ -698,14 +726,34 @@ theorem lines_of_render2 (F : Midgard.Spec.Rinex2ObsFile.File) (hwf : F.wf = tru
   lines_render2 F hwf
 
 /-- **`Rinex2Parser(text of F, sampling_rate).parse()`** is `expected rate F` followed by the post-processors -/
-theorem parse_render2_partial (rate : Option Rat) (F : Midgard.Spec.Rinex2ObsFile.File) (hwf : F.wf = true)
-    (hh : hdrOk2 rate F = true) :
+theorem parse_render2 (rate : Option Rat) (F : Midgard.Spec.Rinex2ObsFile.File) (hwf : F.wf = true) :
     parseText rate (Midgard.Spec.Rinex2ObsFile.render F) = match Midgard.Spec.Rinex2ObsFile.expected rate F with
       | .ok s => finish s
       | .error e => .error e := by
   unfold parseText parseLines
-  rw [lines_render2 F hwf, file2_of_hdrOk rate F hwf hh]
+  rw [lines_render2 F hwf, file2 rate F hwf]
   cases Midgard.Spec.Rinex2ObsFile.expected rate F <;> rfl
+
+/-- **The RINEX 2 post-processors** (`_remove_empty_obstype_fields`, `_get_obstypes_dict`, `_time_system_correction`) keep every
+row: the row-level columns and the header position are unchanged, the observation / LLI / SSI columns are the parsed ones
+minus the types whose observation column is empty or absent in every row (`deadTypes`), and — when a type survives — every
+system that has a row finds exactly the surviving types (`liveTypes`: the header's list with the dead ones removed) under
+`meta["obstypes"][system]`. -/
+theorem postprocessors_keep_rows2 (s s' : State) (h : finish s = .ok s') :
+    s'.data.obs = s.data.obs.filter (fun kc => !(Midgard.Spec.Rinex3ObsFile.deadTypes s.data).contains kc.1) ∧
+    s'.data.lli = s.data.lli.filter (fun kc => !(Midgard.Spec.Rinex3ObsFile.deadTypes s.data).contains kc.1) ∧
+    s'.data.snr = s.data.snr.filter (fun kc => !(Midgard.Spec.Rinex3ObsFile.deadTypes s.data).contains kc.1) ∧
+    rowCols s'.data = rowCols s.data ∧ s'.data.timeMicros = s.data.timeMicros ∧ s'.data.pos = s.data.pos ∧
+    (liveTypes s ≠ [] → ∀ sy ∈ s.data.system, s'.metaD.get [key "obstypes", sy] = some (.list (liveTypes s))) :=
+  finish2 s s' h
+
+/-- **`Rinex2Parser(text of F, sampling_rate).parse()` end to end**: when the header handlers accept the header
+(`expected rate F = .ok s`) and the post-processors run through (`finish s = .ok s'`), parsing the rendered text delivers `s'` -/
+theorem parse_result2 (rate : Option Rat) (F : Midgard.Spec.Rinex2ObsFile.File) (hwf : F.wf = true) (s s' : State)
+    (he : Midgard.Spec.Rinex2ObsFile.expected rate F = .ok s) (hf : finish s = .ok s') :
+    parseText rate (Midgard.Spec.Rinex2ObsFile.render F) = .ok s' := by
+  rw [parse_render2 rate F hwf, he]
+  exact hf
 
 def tiny2F : Midgard.Spec.Rinex2ObsFile.File :=
   let c (t : String) (v : Option Rat) : Cell := ⟨t.toList, v⟩
@@ -727,6 +775,16 @@ example : tiny2F.wf = true ∧ hdrOk2 none tiny2F = true ∧
       (Midgard.Spec.Rinex2ObsFile.expected none tiny2F).toOption ∧
     ((Midgard.Spec.Rinex2ObsFile.expected none tiny2F).toOption.map fun s => (s.data.satellite, s.data.time)) =
       some (["G07".toList, "R21".toList], ["2018-02-01T00:00:30.0000000".toList, "2018-02-01T00:00:30.0000000".toList]) := by
+  decide +kernel
+
+/-- the same file through the post-processors: the types without a value in any row (`L1`, `L2`, `S2`) are gone, both systems
+find the surviving types, both rows are kept -/
+example : (match Midgard.Spec.Rinex2ObsFile.expected none tiny2F with
+    | .ok s => (match finish s with
+      | .ok s' => some (s'.data.obs.map (·.1), s'.metaD.get [key "obstypes", "R".toList], s'.data.satellite.length)
+      | _ => none)
+    | _ => none) =
+    some (["C1", "P2", "D1", "S1"].map String.toList, some (.list (["C1", "P2", "D1", "S1"].map String.toList)), 2) := by
   decide +kernel
 
 end File2
@@ -773,6 +831,11 @@ end Midgard.Props.C11
 #print axioms Midgard.Props.C11.end_marker2
 #print axioms Midgard.Props.C11.block_run2'
 #print axioms Midgard.Props.C11.blocks_run2'
-#print axioms Midgard.Props.C11.file_roundtrip2_partial
+#print axioms Midgard.Props.C11.file_roundtrip2
+#print axioms Midgard.Props.C11.header_state2
+#print axioms Midgard.Props.C11.hdr_ok2
+#print axioms Midgard.Props.C11.plain_header_record2
 #print axioms Midgard.Props.C11.lines_of_render2
-#print axioms Midgard.Props.C11.parse_render2_partial
+#print axioms Midgard.Props.C11.parse_render2
+#print axioms Midgard.Props.C11.postprocessors_keep_rows2
+#print axioms Midgard.Props.C11.parse_result2
